@@ -94,9 +94,15 @@ def tsan_pass(ck, pairs_):
             else:
                 grp = sym
             groups.setdefault(grp, set()).add(sym)
-        for grp, globs in sorted(groups.items()):
-            ck.violation("C17:race@process-global:%s" % grp, "data race between the two instances on process-global state (%d symbols, e.g. %s) [pair %s]"
-                         % (len(globs), ", ".join(sorted(globs)[:4]), name), {"pair": name, "a": a, "b": b, "tsan": 1})
+        # Which of the init-time writers a free-running run happens to catch varies from run to run (1 to ~60 symbols in six runs of the same
+        # pair), so the finding is keyed by what all of them are: process-global state written by every instance's init without synchronisation.
+        # The groups seen in this run are listed in the message and in the evidence.
+        if groups:
+            nsym = sum(len(v) for v in groups.values())
+            ck.violation("C17:race@process-global-state-written-at-init",
+                         "data races between the two instances on process-global state (%d symbols in this run; groups: %s) [pair %s]"
+                         % (nsym, "; ".join("%s (%s)" % (g, ", ".join(sorted(v)[:3])) for g, v in sorted(groups.items())[:8]), name),
+                         {"pair": name, "a": a, "b": b, "tsan": 1})
         writers = groups
         out.append({"pair": name, "race_reports": len(reports), "reports_on_globals": sum(len(v) for v in writers.values()), "global_groups": sorted(writers)})
     return out
